@@ -4,10 +4,15 @@
 EXTENDS Integers, Sequences, TLC, Json
 Kinds == <<"led", "rgb", "servo", "motor", "button", "pot", "ultrasonic", "buzzer", "lcd", "lcdi2c">>
 Hoistable == {"led", "rgb", "servo", "motor", "button", "pot", "ultrasonic"}
-VARIABLES kind, place, use, nb, hasloop, other, rebind, decor, done
+VARIABLES kind, place, use, nb, hasloop, other, rebind, decor, anim, cont, done
 Init == /\ kind \in 1..Len(Kinds) /\ place \in {"before", "looptop"} /\ use \in {"setup", "loop", "helper"}
         /\ nb \in 0..2 /\ hasloop \in BOOLEAN /\ other \in 0..Len(Kinds) /\ done = FALSE
-        /\ rebind \in BOOLEAN /\ decor \in BOOLEAN
+        /\ rebind \in BOOLEAN /\ decor \in BOOLEAN /\ anim \in 0..2 /\ cont \in BOOLEAN
+        \* anim: the display runs that many looping animations, started in the prologue (their ticks are injected housekeeping)
+        /\ (anim > 0 => Kinds[kind] \in {"lcd", "lcdi2c"} /\ hasloop /\ ~decor
+                         /\ (other = 0 \/ Kinds[other] # "ultrasonic"))      \* the ranging helper reads the clock itself
+        \* cont: every second pass of the main loop ends early through `continue` (housekeeping still runs once in it)
+        /\ (cont => hasloop /\ (anim > 0 \/ nb > 0) /\ other = 0 /\ ~decor /\ ~rebind)
         \* rebind: the same name is also bound before the loop, to a device of the same kind on other pins
         /\ (rebind => place = "looptop" /\ other = 0 /\ nb = 0)
         \* decor: comment lines (column 0 and deeper), trailing comments on headers and blank lines are sprinkled over the script
@@ -17,7 +22,7 @@ Init == /\ kind \in 1..Len(Kinds) /\ place \in {"before", "looptop"} /\ use \in 
         /\ (Kinds[kind] = "button" => use # "setup")
         /\ (other # 0 => other # kind /\ nb = 0 /\ Kinds[other] # "button")
         /\ (Kinds[kind] \in {"lcd", "lcdi2c"} => (other = 0 \/ Kinds[other] \notin {"lcd", "lcdi2c"}))
-Next == done = FALSE /\ done' = TRUE /\ UNCHANGED <<kind, place, use, nb, hasloop, other, rebind, decor>>
+Next == done = FALSE /\ done' = TRUE /\ UNCHANGED <<kind, place, use, nb, hasloop, other, rebind, decor, anim, cont>>
 Emit == done => PrintT(ToJson([kind |-> Kinds[kind], place |-> place, use |-> use, nb |-> nb, hasloop |-> hasloop,
-                               other |-> (IF other = 0 THEN "none" ELSE Kinds[other]), rebind |-> rebind, decor |-> decor]))
+                               other |-> (IF other = 0 THEN "none" ELSE Kinds[other]), rebind |-> rebind, decor |-> decor, anim |-> anim, cont |-> cont]))
 =============================================================================
